@@ -78,6 +78,75 @@ pub mod verif_spec {
 }
 '''
 
+# proof_for_contract harnesses: spliced (inside `mod verif`) only into the copy that carries the contract attributes
+CONTRACT_HARNESSES = r'''
+    #[kani::proof_for_contract(Lexer::<'static, ArrIter, u8, u32, u8, Wr>::next)]
+    fn contract_next() {
+        let mut l = any_lexer();
+        let before = rest(&l.__iter);
+        let us = l.user_state; let st = (l.__state, l.__initial_state, l.__done, l.current_match_start, l.iter_loc);
+        let lm = l.last_match.as_ref().map(|m| (m.0, rest(&m.1), m.2 as usize, m.3));
+        let r = l.next();
+        kani::cover!(r.is_some(), "next: a character is read");
+        kani::cover!(r.is_none(), "next: end of input");
+        kani::cover!(r == Some('\n')); kani::cover!(r == Some('\t')); kani::cover!(r == Some('\u{301}')); kani::cover!(r == Some('\u{4E16}'));
+        // the character returned is the first remaining one and the iterator moved by exactly one
+        assert!(r == before.0[0]);
+        let after = rest(&l.__iter);
+        assert!(after.0[0] == before.0[1] && after.0[1] == before.0[2] && after.0[2].is_none() || r.is_none() && after.0 == before.0);
+        // frame (also enforced by the modifies clause)
+        assert!(l.user_state == us && (l.__state, l.__initial_state, l.__done, l.current_match_start, l.iter_loc) == st);
+        assert!(l.last_match.as_ref().map(|m| (m.0, rest(&m.1), m.2 as usize, m.3)) == lm);
+    }
+
+    #[kani::proof_for_contract(Lexer::<'static, ArrIter, u8, u32, u8, Wr>::peek)]
+    fn contract_peek() {
+        let mut l = any_lexer();
+        let before = rest(&l.__iter);
+        let locs = (l.current_match_start, l.current_match_end, l.iter_loc);
+        let r = l.peek();
+        kani::cover!(r.is_some()); kani::cover!(r.is_none());
+        assert!(r == before.0[0]);                 // C10: peek is the first unconsumed character
+        assert!(rest(&l.__iter) == before);        // and consumes nothing
+        assert!((l.current_match_start, l.current_match_end, l.iter_loc) == locs);
+    }
+
+    #[kani::proof_for_contract(Lexer::<'static, ArrIter, u8, u32, u8, Wr>::backtrack)]
+    fn contract_backtrack() {
+        let mut l = any_lexer();
+        let us = l.user_state;
+        let saved = l.last_match.as_ref().map(|m| (rest(&m.1), m.2 as usize));
+        let cur = rest(&l.__iter);
+        let r = l.backtrack();
+        kani::cover!(r.is_ok(), "backtrack: rewind"); kani::cover!(r.is_err(), "backtrack: nothing saved");
+        assert!(l.user_state == us);
+        match r {
+            Ok(f) => { let s = saved.unwrap(); assert!(f as usize == s.1); assert!(rest(&l.__iter) == s.0); }   // C01: the saved action and position
+            Err(_) => { assert!(saved.is_none()); assert!(rest(&l.__iter) == cur); }
+        }
+    }
+
+    #[kani::proof_for_contract(Lexer::<'static, ArrIter, u8, u32, u8, Wr>::set_accepting_state)]
+    fn contract_set_accepting_state() {
+        let mut l = any_lexer();
+        let f: Act = if kani::any() { act_a } else { act_b };
+        let cur = rest(&l.__iter);
+        l.set_accepting_state(f);
+        assert!(l.last_match.as_ref().map(|m| rest(&m.1)) == Some(cur));   // the iterator saved is the current one
+        assert!(rest(&l.__iter) == cur);
+    }
+
+    #[kani::proof_for_contract(Lexer::<'static, ArrIter, u8, u32, u8, Wr>::reset_accepting_state)]
+    fn contract_reset_accepting_state() { let mut l = any_lexer(); l.reset_accepting_state(); }
+
+    #[kani::proof_for_contract(Lexer::<'static, ArrIter, u8, u32, u8, Wr>::reset_match)]
+    fn contract_reset_match() { let mut l = any_lexer(); l.reset_match(); }
+
+    #[kani::proof_for_contract(Lexer::<'static, ArrIter, u8, u32, u8, Wr>::match_loc)]
+    fn contract_match_loc() { let l = any_lexer(); let _ = l.match_loc(); }
+'''
+
+# helper items and plain harnesses; the marker line is replaced by CONTRACT_HARNESSES in the contract copy
 HARNESS_MOD = r'''
 #[cfg(kani)]
 mod verif {
@@ -130,53 +199,10 @@ mod verif {
     }
 
     // ---- next ------------------------------------------------------------------------------------
-    #[kani::proof_for_contract(Lexer::<'static, ArrIter, u8, u32, u8, Wr>::next)]
-    fn contract_next() {
-        let mut l = any_lexer();
-        let before = rest(&l.__iter);
-        let us = l.user_state; let st = (l.__state, l.__initial_state, l.__done, l.current_match_start, l.iter_loc);
-        let lm = l.last_match.as_ref().map(|m| (m.0, rest(&m.1), m.2 as usize, m.3));
-        let r = l.next();
-        kani::cover!(r.is_some(), "next: a character is read");
-        kani::cover!(r.is_none(), "next: end of input");
-        kani::cover!(r == Some('\n')); kani::cover!(r == Some('\t')); kani::cover!(r == Some('\u{301}')); kani::cover!(r == Some('\u{4E16}'));
-        // the character returned is the first remaining one and the iterator moved by exactly one
-        assert!(r == before.0[0]);
-        let after = rest(&l.__iter);
-        assert!(after.0[0] == before.0[1] && after.0[1] == before.0[2] && after.0[2].is_none() || r.is_none() && after.0 == before.0);
-        // frame (also enforced by the modifies clause)
-        assert!(l.user_state == us && (l.__state, l.__initial_state, l.__done, l.current_match_start, l.iter_loc) == st);
-        assert!(l.last_match.as_ref().map(|m| (m.0, rest(&m.1), m.2 as usize, m.3)) == lm);
-    }
 
     // ---- peek ------------------------------------------------------------------------------------
-    #[kani::proof_for_contract(Lexer::<'static, ArrIter, u8, u32, u8, Wr>::peek)]
-    fn contract_peek() {
-        let mut l = any_lexer();
-        let before = rest(&l.__iter);
-        let locs = (l.current_match_start, l.current_match_end, l.iter_loc);
-        let r = l.peek();
-        kani::cover!(r.is_some()); kani::cover!(r.is_none());
-        assert!(r == before.0[0]);                 // C10: peek is the first unconsumed character
-        assert!(rest(&l.__iter) == before);        // and consumes nothing
-        assert!((l.current_match_start, l.current_match_end, l.iter_loc) == locs);
-    }
 
     // ---- backtrack -------------------------------------------------------------------------------
-    #[kani::proof_for_contract(Lexer::<'static, ArrIter, u8, u32, u8, Wr>::backtrack)]
-    fn contract_backtrack() {
-        let mut l = any_lexer();
-        let us = l.user_state;
-        let saved = l.last_match.as_ref().map(|m| (rest(&m.1), m.2 as usize));
-        let cur = rest(&l.__iter);
-        let r = l.backtrack();
-        kani::cover!(r.is_ok(), "backtrack: rewind"); kani::cover!(r.is_err(), "backtrack: nothing saved");
-        assert!(l.user_state == us);
-        match r {
-            Ok(f) => { let s = saved.unwrap(); assert!(f as usize == s.1); assert!(rest(&l.__iter) == s.0); }   // C01: the saved action and position
-            Err(_) => { assert!(saved.is_none()); assert!(rest(&l.__iter) == cur); }
-        }
-    }
 
 
     // ---- per-property obligations on backtrack (one conjunct each, so that a failure names its property) -----
@@ -249,23 +275,8 @@ mod verif {
     }
 
     // ---- set / reset accepting state ---------------------------------------------------------------
-    #[kani::proof_for_contract(Lexer::<'static, ArrIter, u8, u32, u8, Wr>::set_accepting_state)]
-    fn contract_set_accepting_state() {
-        let mut l = any_lexer();
-        let f: Act = if kani::any() { act_a } else { act_b };
-        let cur = rest(&l.__iter);
-        l.set_accepting_state(f);
-        assert!(l.last_match.as_ref().map(|m| rest(&m.1)) == Some(cur));   // the iterator saved is the current one
-        assert!(rest(&l.__iter) == cur);
-    }
-    #[kani::proof_for_contract(Lexer::<'static, ArrIter, u8, u32, u8, Wr>::reset_accepting_state)]
-    fn contract_reset_accepting_state() { let mut l = any_lexer(); l.reset_accepting_state(); }
 
     // ---- reset_match / match_loc / state -----------------------------------------------------------
-    #[kani::proof_for_contract(Lexer::<'static, ArrIter, u8, u32, u8, Wr>::reset_match)]
-    fn contract_reset_match() { let mut l = any_lexer(); l.reset_match(); }
-    #[kani::proof_for_contract(Lexer::<'static, ArrIter, u8, u32, u8, Wr>::match_loc)]
-    fn contract_match_loc() { let l = any_lexer(); let _ = l.match_loc(); }
 
     #[kani::proof]
     fn harness_state_frame() {
@@ -410,6 +421,7 @@ mod verif {
         }
         assert!(snap(&l) == snap(&c));
     }
+    //@@CONTRACT_HARNESSES@@
 }
 '''
 
